@@ -314,6 +314,13 @@ def signOk (geom : GeomIdx) (k : Fr) : Bool :=
 
 def specG (s : Sym) : SpecC08.G := { size := s.size, op := s.opAt, v := s.vAt }
 
+/-- ascending insertion sort -/
+def insertAsc (x : Nat) : List Nat → List Nat
+  | [] => [x]
+  | y :: ys => if x ≤ y then x :: y :: ys else y :: insertAsc x ys
+
+def sortAsc (xs : List Nat) : List Nat := xs.foldr insertAsc []
+
 def pairwise {α} (p : α → α → Bool) : List α → Bool
   | [] => true
   | x :: xs => xs.all (p x) && pairwise p xs
@@ -344,7 +351,10 @@ def clauses (g : Sym) (geom : GeomIdx) (out : List Emitted) : List (String × Bo
     ("crates-orbifold-symbol-is-on-the-good-list-when-curvature-positive",
       out.all fun e => !e.k.isPos ||
         (match SpecC08.parseSymbol e.orb with | some b => onGoodList b | none => false)),
-    ("no-two-emitted-symbols-isomorphic", pairwise (fun a b => !SpecC03.isomorphic a b) syms),
+    ("no-two-emitted-symbols-isomorphic",
+      -- isomorphic symbols have the same multiset of branching numbers: only such pairs are searched
+      pairwise (fun (a b : List Nat × Sym) => a.1 != b.1 || !SpecC03.isomorphic a.2 b.2)
+        (syms.map fun s => (sortAsc s.v.toList, s))),
     ("numbered-consecutively-from-1",
       out.map (·.counter) == (List.range out.length).map (· + 1)),
     ("every-emitted-symbol-is-in-the-expected-set", asg.all fun a => o.admits geom a),
